@@ -348,6 +348,16 @@ def step (st : St) (line : String) : St × String :=
         ((c.getD 0 0, c.getD 1 0), (c.getD 2 0, c.getD 3 0), (c.getD 4 0, c.getD 5 0))
       let O := circumcentre A B C
       (st, s!"{b O.1} {b O.2} {b (triArea2 A B C)} {b (kite2 A B C)} {b (kite2 B C A)} {b (kite2 C A B)}")
+    | ["dual"], [coords] =>
+      -- dual edge of the edge AB: inner (A B C D, triangles (A,B,C) and (B,A,D)) -> s1 s2 inCircle dualInner2;
+      -- boundary (A B C) -> s1 dualBoundary2            (Tdgl/Geometry.lean, theorems in Props/C07Delaunay.lean)
+      let c := floats coords
+      let P (i : Nat) : Float × Float := (c.getD (2*i) 0, c.getD (2*i+1) 0)
+      if c.size == 8 then
+        (st, s!"{b (ccOffset (P 0) (P 1) (P 2))} {b (ccOffset (P 1) (P 0) (P 3))} {b (inCircle (P 0) (P 1) (P 2) (P 3))} {b (dualInner2 (P 0) (P 1) (P 2) (P 3))}")
+      else if c.size == 6 then
+        (st, s!"{b (ccOffset (P 0) (P 1) (P 2))} {b (dualBoundary2 (P 0) (P 1) (P 2))}")
+      else (st, "bad-op")
     | ["units", pi, mu0, phi0, lu, fu, cu, xi, lam, d, bb, ii, lt], [] =>
       let c : Consts Float := ⟨f pi, f mu0, f phi0⟩
       let u : UnitSys Float := ⟨f lu, f fu, f cu⟩
